@@ -86,7 +86,7 @@ func runC01(r *run) {
 	for _, lv := range levels {
 		names[slog.Level(lv).String()] = lv
 	}
-	slogLevels := []int{-20, -16, -9, -8, -5, -4, -3, -1, 0, 1, 2, 3, 4, 5, 7, 8, 9, 12, 16, 17, 18, 20}
+	slogLevels := []int{-20, -16, -9, -8, -5, -4, -3, -2, -1, 0, 1, 2, 3, 4, 5, 6, 7, 8, 9, 12, 16, 17, 18, 20}
 
 	// the three loggers and their recorders
 	recs := []*recorder{{name: "default"}, {name: "detached"}, {name: "child"}}
@@ -240,7 +240,26 @@ func runC01(r *run) {
 						}
 					case name == "Log":
 						for _, q := range slogLevels {
-							call(k, false, name, q, 0, L, slog2lv(q))
+							sv := slog2lv(q)
+							// from the statement, independently of the library's table: a log/slog level that is none of
+							// the named constants counts as the nearest standard level below it
+							named := map[int]bool{-16: true, -8: true, -4: true, 0: true, 2: true, 3: true, 4: true, 8: true, 16: true, 17: true}
+							if !named[q] {
+								ref := 2
+								switch {
+								case q < 0:
+									ref = 5
+								case q < 4:
+									ref = 4
+								case q < 8:
+									ref = 3
+								}
+								if sv != ref {
+									r.violate(violation{What: "Log maps a log/slog level to another severity than the nearest standard level below it",
+										Input: map[string]any{"logslog_level": q}, Expected: ref, Actual: sv})
+								}
+							}
+							call(k, false, name, q, 0, L, sv)
 						}
 					case base == "Verbose":
 						call(k, false, name, 0, 0, L, 6)
